@@ -186,11 +186,11 @@ theorem ghP_spec (g v k h tag data : List Nat) (count : Nat) (hG : g.length = 16
       greg s' 1 = 81604378624 ∧ greg s' 2 = count ∧ vreg s' 21 = rb128 (unlanes 8 tag) ∧
       s'.flags = (subF 8 count 8).2 := by
   obtain ⟨s1, hrun1, p1⟩ := ghP1_spec g v k h tag data count hG hV hh ht
-  obtain ⟨s2, hrun2, vo2, lt2, val2⟩ := rb_spec 16 19 1 2 rfl (Or.inl ⟨rfl, rfl, rfl⟩) s1 p1.lenV p1.v22 p1.v23 p1.v24
+  obtain ⟨s2, hrun2, vo2, lt2, val2⟩ := rb_spec 16 19 1 2 rfl (Or.inl ⟨by decide, rfl, rfl⟩) s1 p1.lenV p1.v22 p1.v23 p1.v24
   have e22 : vreg s2 22 = AND64 := by rw [vo2.keep 22 mem22 (by decide), p1.v22]
   have e23 : vreg s2 23 = LOW4 := by rw [vo2.keep 23 mem23 (by decide), p1.v23]
   have e24 : vreg s2 24 = HIGH4 := by rw [vo2.keep 24 mem24 (by decide), p1.v24]
-  obtain ⟨s3, hrun3, vo3, lt3, val3⟩ := rb_spec 16 21 1 2 rfl (Or.inr (Or.inl ⟨rfl, rfl, rfl⟩)) s2 vo2.lenV e22 e23 e24
+  obtain ⟨s3, hrun3, vo3, lt3, val3⟩ := rb_spec 16 21 1 2 rfl (Or.inl ⟨by decide, rfl, rfl⟩) s2 vo2.lenV e22 e23 e24
   -- values
   have hhlt : unlanes 8 h < 2 ^ 128 := by
     have := unlanes_lt 8 h hhb; rwa [hh] at this
